@@ -272,9 +272,12 @@ func kindRule(c *core.Ctx, p *pduInfo, w, r []*wire.Op) {
 				walk(wo.Body, ro.Body, sub)
 			case wire.FIX:
 				binary := sf != nil && sf.Kind == 'B'
+				// two questions, two obligations (a recorded finding about the one must not hide a new defect of the other):
+				// are the value transforms inverse, and is the slot read with the primitive of its kind
+				if !inverseTransforms(wo.Transform, ro.Transform) {
+					c.Fail("C01-KIND", key+"#transform", pos, fmt.Sprintf("value transforms are not mutually inverse: encoder applies %q, decoder applies %q (a decoded value re-encodes to different octets)", wo.Transform, ro.Transform))
+				}
 				switch {
-				case !inverseTransforms(wo.Transform, ro.Transform):
-					c.Fail("C01-KIND", key, pos, fmt.Sprintf("value transforms are not mutually inverse: encoder applies %q, decoder applies %q (a decoded value re-encodes to different octets)", wo.Transform, ro.Transform))
 				case binary && !ro.Raw:
 					c.Fail("C01-KIND", key, pos, fmt.Sprintf("binary %d-octet field is read with the trimming primitive %s: a value containing 0x00 is cut short", ro.Width, ro.Prim))
 				case !binary && ro.Raw && ro.Transform == "":
